@@ -124,4 +124,14 @@ theorem after_on_every_response (app : App) (p : Prog) (post : AfterProg) (ctor 
       | (t, some r) => ((runAfter app p post 0 app.nAfter t r).1, some (runAfter app p post 0 app.nAfter t r).2) :=
   rfl
 
+/-! ### non-vacuity: a concrete application and failing program meet the hypotheses -/
+
+/-- both before hooks of the demo pass, so `dispatch_order` applies: they run in order, then the endpoint -/
+example : ∀ j, j < C04.demoApp.nBefore → Passes C04.demoProg j := by
+  intro j _ e h
+  simp [C04.demoProg] at h
+
+example : (dispatch C04.demoApp C04.demoProg .hit []).1 = [.before 0, .before 1, .endpoint] := by decide
+
+
 end Poor.Props.C03
